@@ -404,6 +404,13 @@ def c19(ctx):
     ctx.assumptions += ["updates come from a Raft-consistent universe: one leader per term, one membership per config-change index (the universe the property is stated for)",
                         "the memberlist transport is not exercised: gossip = the delegate's real LocalState / MergeRemoteState JSON exchange called directly"]
     q = ctx.quick
+    # UNBOUNDED: for any nodes, any Raft-consistent universe and any sequence of deliveries and gossip exchanges every
+    # view is THE join of the set of updates that reached it (TLAPS); TLC checks that the relational join of the proof
+    # agrees with the CHOOSE-based Join on the bounded universe (JoinAgrees)
+    n, wall = tlaps(ctx.sc, "ShardViewU")
+    ctx.notes["tlaps"] = dict(module="spec/proofs/ShardViewU.tla", obligations_proved=n, wall_s=round(wall, 1),
+                              theorem="Spec => [](\\A n : IsJoin(view[n], delivered[n])), and a set has exactly one join")
+    log("(D) tlapm ShardViewU: all %d obligations proved in %.1fs" % (n, wall))
     ctx.design("MC_ShardView", "MC_ShardView_quick.cfg" if q else "MC_ShardView_thorough.cfg")
     beh = ctx.generate("MC_ShardView", "MC_ShardView_gen.cfg", num=600 if q else 10000, depth=8)
     if not ctx.gv("tlc-deliveries", "Trace_ShardView", ["shardview", "--seed", str(seed())], inputs=beh):
